@@ -151,9 +151,17 @@ func cmdCheck(args []string) int {
 		cfg.TimeoutMs = spec.TimeoutMs
 	}
 	cfg.Bounds["seed"] = seed
-	if spec.DeadlineS > 0 {
-		cfg.Deadline = time.Now().Add(time.Duration(spec.DeadlineS) * time.Second)
+	// every check has a time budget: exploration that is still running when it expires is
+	// truncated and reported as UNDECIDED (never as success); on the unchanged tree the registered
+	// bounds finish well inside it
+	budget := spec.DeadlineS
+	if budget == 0 {
+		budget = 900
+		if *tier == "thorough" {
+			budget = 7200
+		}
 	}
+	cfg.Deadline = time.Now().Add(time.Duration(budget) * time.Second)
 	bs := spec.Quick
 	if *tier == "thorough" {
 		bs = map[string]int{}
